@@ -400,6 +400,15 @@ def main():
             vendor_marks.append((n.lineno, n.left.value))
     vendor_marks = [t for _, t in sorted(vendor_marks)]
 
+    # stats.py: for every public function the channel slicing rule and the numeric statements (everything that is not the slicing)
+    stats_defs = []
+    for n in trees['stats'].body:
+        if isinstance(n, ast.FunctionDef) and not n.name.startswith('_'):
+            body = [st for st in n.body if not (isinstance(st, ast.Expr) and isinstance(st.value, ast.Constant) and isinstance(st.value.value, str))]
+            slicing = [ast.unparse(st).replace('\n', ' ; ') for st in body if isinstance(st, ast.If) and 'data_stats' in ast.unparse(st)]
+            numeric = [ast.unparse(st) for st in body if not (isinstance(st, ast.If) and 'data_stats' in ast.unparse(st))]
+            stats_defs.append((n.name, ' | '.join(' '.join(x.split()) for x in slicing), ' ; '.join(' '.join(x.split()) for x in numeric)))
+
     strip = lambda xs: [x.lstrip('_') for x in xs]
     facts = {
         'sampleFields': strip(sample_fields), 'finalizeFields': strip(finalize_fields),
@@ -410,6 +419,7 @@ def main():
         'writeSites': ws, 'hashes': hashes,
         'sampleRaiseSites': sample_raises, 'beadsRaiseSites': beads_raises, 'outputSheetSpec': [[n, c] for n, c in sheets],
         'statsHeadColumns': head, 'statsPerChannelSuffixes': per,
+        'statsDefinitions': [list(t) for t in stats_defs],
         'sampleKeywords': sample_keywords, 'fileKeywords': file_keywords, 'vendorMarks': vendor_marks,
         'samplePipelineCalls': [list(t) for t in sample_calls], 'statColumnFunctions': [list(t) for t in stat_cols], 'positiveEventsRule': pos_rule,
         'summary': {'sampleFields': len(sample_fields), 'finalizeFields': len(finalize_fields),
@@ -440,6 +450,7 @@ def main():
     L.append('def sampleKeywords : List String := [' + ', '.join(lstr(x) for x in sample_keywords) + ']')
     L.append('def fileKeywords : List String := [' + ', '.join(lstr(x) for x in file_keywords) + ']')
     L.append('def vendorMarks : List String := [' + ', '.join(lstr(x) for x in vendor_marks) + ']')
+    L.append('def statsDefinitions : List (String × String × String) := [' + ',\n  '.join('(%s, %s, %s)' % tuple(lstr(x) for x in t) for t in stats_defs) + ']')
     L.append('def samplePipelineCalls : List (String × String × String) := [' + ',\n  '.join('(%s, %s, %s)' % tuple(lstr(x) for x in t) for t in sample_calls) + ']')
     L.append('def statColumnFunctions : List (String × String × String) := [' + ',\n  '.join('(%s, %s, %s)' % tuple(lstr(x) for x in t) for t in stat_cols) + ']')
     L.append('def positiveEventsRule : List String := [' + ', '.join(lstr(x) for x in pos_rule) + ']')
